@@ -409,6 +409,11 @@ namespace nmtools::index
             } // else (index array & tuple handler)
         }
 
+        // fewer slices than axes (and no ellipsis): the trailing axes are kept as they are, as in a[0:1] for a 2-d array
+        for (; (res_i < (size_t)(dim-n_int)) && (shp_i < (size_t)dim); ) {
+            at(res,res_i++) = at(shape,shp_i++);
+        }
+
         return res;
     } // shape_dynamic_slice
 
@@ -584,6 +589,11 @@ namespace nmtools::index
             } else {
                 handle_index_array(slice);
             }
+        }
+
+        // fewer slices than axes (and no ellipsis): the trailing axes are kept as they are
+        for (; shape_i < (size_t)dim; shape_i++) {
+            at(res,result_i++) = at(indices,index_i++);
         }
 
         return res;
@@ -859,6 +869,13 @@ namespace nmtools::index
             s_i++;
         });
 
+        // fewer slices than axes (and no ellipsis): the trailing axes are kept as they are, as in a[0:1] for a 2-d array
+        if constexpr (NUM_ELLIPSIS == 0) {
+            for (; s_i < (size_t)len(shape); s_i++) {
+                at(res,r_i++) = at(shape,s_i);
+            }
+        }
+
         return res;
     } // shape_slice
 
@@ -981,6 +998,11 @@ namespace nmtools::index
             r_i++;
             s_i++;
         });
+
+        // fewer slices than axes (and no ellipsis): the trailing axes are kept as they are
+        for (; s_i < (size_t)dim; s_i++) {
+            at(res,r_i++) = at(indices,i_i++);
+        }
 
         return res;
     } // slice
